@@ -59,6 +59,7 @@ def main():
     orig_gsi = m.get_state_id
 
     sym_ids = {}
+    BLOCK_FIELDS = ["basefee", "chainid", "coinbase", "difficulty", "gaslimit", "number", "timestamp"]
 
     def symbols(term, cache={}):  # noqa: B006
         """names of the uninterpreted constants of a z3 term (plain traversal of the DAG)"""
@@ -94,6 +95,21 @@ def main():
         for st in ex.storage.values():
             for v in st._mapping.values():
                 state_syms |= symbols(v)
+        # the block environment a handler can change (all fields but the timestamp, which is refreshed after every
+        # transaction); a field may hold an int, a halmos bit-vector or a z3 term
+        import z3
+
+        block = []
+        for fname in BLOCK_FIELDS:
+            f = getattr(ex.block, fname)
+            z = z3.BitVecVal(f, 256) if isinstance(f, int) else (f.as_z3() if hasattr(f, "as_z3") else f)
+            if z3.is_bv_value(z):
+                block.append(2 * z.as_long())            # concrete: named by its value
+            else:
+                keep.append(z)
+                block.append(2 * z.get_id() + 1)         # symbolic: named by the id of the term
+                if fname != "timestamp":
+                    state_syms |= symbols(z)
         for contract in ex.code.values():  # symbolic parts of deployed code (none in the fabricated projects)
             for chunk in getattr(getattr(contract, "_code", None), "chunks", {}).values():
                 data = getattr(chunk, "data", None)
@@ -107,6 +123,7 @@ def main():
             "state_symbols": sorted(state_syms)[:8],
             "cond_syms": [num(symbols(c)) for c in path.conditions],     # the symbols of each condition, numbered
             "state_syms": num(state_syms),
+            "block": block,                                              # basefee, chainid, coinbase, difficulty, gaslimit, number, timestamp
             "balance": ex.balance.get_id(),
             "code": [[int_of(a), id(c)] for a, c in ex.code.items()],
             "storage": [[int_of(a), [[list(k) if isinstance(k, tuple) else k, v.get_id()] for k, v in st._mapping.items()]]
@@ -234,7 +251,13 @@ def main():
         fs = ctx.frontier_states.get(0)
         if fs:
             s = fs[0]
-            trace["setup"] = [uid(s), tok(ids.get(id(s), b"?"))]
+            # the setUp state has a real state id only if run_contract registered it as visited
+            trace["setup"] = [uid(s), tok(ids[id(s)]) if id(s) in ids else -1]
+            if uid(s) not in trace["components"]:
+                try:
+                    trace["components"][uid(s)] = components(s)
+                except Exception as e:  # noqa: BLE001
+                    trace["components"][uid(s)] = {"error": repr(e)}
             trace["frontiers"][0] = [uid(e) for e in fs]
         return res
 
